@@ -123,26 +123,44 @@ Qed.
 (* ---- slice: python xs[start:stop:step] on positions ----------------------------- *)
 Definition slice_pass (start step i : nat) : bool := (start <=? i) && ((i - start) mod step =? 0).
 
-Fixpoint slice_sem (start step : nat) (i : nat) (l : list arrival) : list (val * md) :=
+(* python xs[start:stop:step]: nothing at or after position `stop` *)
+Definition slice_finished (stop : option nat) (i : nat) : bool :=
+  match stop with Some e => e <=? i | None => false end.
+
+Fixpoint slice_sem (start : nat) (stop : option nat) (step : nat) (i : nat) (l : list arrival) : list (val * md) :=
   match l with
   | [] => []
-  | a :: t => (if slice_pass start step i then [(aval a, amd a)] else []) ++ slice_sem start step (S i) t
+  | a :: t =>
+      if slice_finished stop i then []
+      else (if slice_pass start step i then [(aval a, amd a)] else []) ++ slice_sem start stop step (S i) t
   end.
 
+(* a finished slice (it has detached itself; an emission that was under way may still call it) does nothing *)
+Lemma slice_finished_silent start stop step s l :
+  slice_finished stop (st_n s) = true ->
+  fold_outs (KSlice start stop step) s l = [] /\ fold_state (KSlice start stop step) s l = s.
+Proof.
+  intros Hf. induction l as [|[[q x] m] t IH]; [split; reflexivity|].
+  unfold fold_state in *. cbn [fold_outs fold_left]. unfold upd_outs, upd_state, slice_finished in *. cbn [update].
+  rewrite Hf. cbn. exact IH.
+Qed.
+
 Lemma sem_slice start stop step s l :
-  fold_outs (KSlice start stop step) s l = slice_sem start step (st_n s) l.
+  fold_outs (KSlice start stop step) s l = slice_sem start stop step (st_n s) l.
 Proof.
   revert s. induction l as [|[[q x] m] t IH]; intros s; cbn [fold_outs slice_sem]; [reflexivity|].
-  unfold upd_outs, upd_state, aval, amd, slice_pass; cbn.
-  rewrite outs_app, final_state_app. cbn.
-  destruct ((start <=? st_n s) && ((st_n s - start) mod step =? 0)); cbn; rewrite IH; reflexivity.
+  destruct (slice_finished stop (st_n s)) eqn:Hf.
+  - pose proof (slice_finished_silent start stop step s ((q, x, m) :: t) Hf) as [H _]. cbn [fold_outs] in H. exact H.
+  - unfold upd_outs, upd_state, aval, amd, slice_pass, slice_finished in *; cbn [update]. rewrite Hf. cbn.
+    destruct ((start <=? st_n s) && ((st_n s - start) mod step =? 0)); cbn; rewrite IH; reflexivity.
 Qed.
 
 (* the slice detaches (stops receiving) exactly when `stop` elements have arrived *)
 Lemma slice_detach start e step s a :
+  (e <=? st_n s) = false ->
   st_detached (upd_state (KSlice start (Some e) step) s a) = (e <=? S (st_n s)).
 Proof.
-  destruct a as [[q x] m]. unfold upd_state; cbn. rewrite final_state_app. cbn.
+  intros Hf. destruct a as [[q x] m]. unfold upd_state; cbn. rewrite Hf. cbn.
   destruct ((start <=? st_n s) && ((st_n s - start) mod step =? 0)); reflexivity.
 Qed.
 
